@@ -28,7 +28,7 @@ pub struct Choice {
 }
 
 pub fn strategy() -> BoxedStrategy<Choice> {
-  (0u8..RULES.len() as u8, prop::collection::vec((0u8..10, 0u8..8, 0u8..8), 1..7), any::<bool>(), 0u8..10)
+  (0u8..RULES.len() as u8, prop::collection::vec((0u8..14, 0u8..8, 0u8..8), 1..7), any::<bool>(), 0u8..10)
     .prop_map(|(rule, stmts, trailing_newline, lead)| Choice {
       rule,
       stmts,
@@ -54,6 +54,9 @@ fn stmt(k: u8, a: u8, b: u8) -> String {
     6 => format!("if ({x}) {{\n  foo({y});\n}}"),
     7 => format!("foo(foo({x}));"),
     8 => format!("let é = foo({y})"),
+    10 => format!("v = {x} + {y} + {x};"),
+    11 => format!("a.b.c({y});"),
+    12 => format!("f(g({x}), h(k({y})));"),
     _ => format!("foo(\n  {x},\n  {y}\n);"),
   }
 }
@@ -84,6 +87,12 @@ const RULES: &[&str] = &[
   // keep chomping: two line breaks at the end, and a fix that is only a line break
   "id: r\nlanguage: JavaScript\nrule:\n  pattern: foo($A)\nfix: |+\n  bar($A)\n\n",
   "id: r\nlanguage: JavaScript\nrule:\n  kind: number\n  inside: {kind: array}\nfix: \"\\n\"\n",
+  // nested matches that start at the same place (left-associative operators, member chains)
+  "id: r\nlanguage: JavaScript\nrule:\n  pattern: $A + $B\nfix: add($A, $B)\n",
+  "id: r\nlanguage: JavaScript\nrule:\n  kind: member_expression\nfix: M\n",
+  // an expansion that makes the edit of a match overlap the previous edit; its own nested
+  // matches remain
+  "id: r\nlanguage: JavaScript\nrule:\n  kind: call_expression\n  inside: {kind: arguments}\nfix:\n  template: X\n  expandStart: {kind: call_expression, stopBy: end}\n",
 ];
 
 pub fn interpret(ch: &Choice, _st: &mut Stats) -> Option<Case> {
@@ -208,6 +217,8 @@ pub fn check(case: &Case, st: &mut Stats) -> CheckResult {
     .collect();
   // the overlap-free list keeps an outermost match's edit unless it overlaps the last kept one
   // (expansions can widen neighbouring matches onto a common sibling) -- the rule `scan -U` applies
+  // the library rewrites outermost matches only (C01's subject): a match nested in another
+  // match is not visited, whether or not the outer one's edit is kept
   let mut want: Vec<(usize, usize, String)> = vec![];
   let mut end = 0;
   for e in outer.iter() {
@@ -233,9 +244,19 @@ pub fn check(case: &Case, st: &mut Stats) -> CheckResult {
     );
   }
   st.label("library_checked");
-  // ---- (3b) the file written by --update-all: the same edits, spliced into the same text
+  // ---- (3b) the file written by --update-all: the same edits, spliced into the same text. The
+  // CLI filters all matches by range, so a match nested in one whose edit was dropped stays
   {
-    let edits: Vec<(usize, usize, Vec<u8>)> = want.iter().map(|(s, e, t)| (*s, e - s, t.clone().into_bytes())).collect();
+    let mut want_u: Vec<(usize, usize, String)> = vec![];
+    let mut end = 0;
+    for e in ej.iter() {
+      if e.rep.0 < end {
+        continue;
+      }
+      end = e.rep.1;
+      want_u.push((e.rep.0, e.rep.1, e.text.clone()));
+    }
+    let edits: Vec<(usize, usize, Vec<u8>)> = want_u.iter().map(|(s, e, t)| (*s, e - s, t.clone().into_bytes())).collect();
     if let Ok(expected) = o_splice(text, &edits) {
       dir.write("upd/a.js", text.as_bytes());
       let out = cli::sgv(&["scan", "-U", "upd/a.js"], &dir.path, None);
@@ -329,9 +350,9 @@ rule:
     .cloned()
     .unwrap_or_default();
   let got: Vec<((usize, usize), String)> = edits.iter().map(|e| (lsp_range(text, &e["range"]), e["newText"].as_str().unwrap_or("").to_string())).collect();
-  // overlap-free subset in position order
-  let mut sorted = ej.clone();
-  sorted.sort_by_key(|e| (e.node.0, e.node.1));
+  // overlap-free subset in document order, an outer match before the matches nested in it, as
+  // `scan -U` and the other front ends take them
+  let sorted = ej.clone();
   let mut want = vec![];
   let mut last = 0;
   for e in &sorted {
@@ -373,7 +394,7 @@ rule:
 pub fn run(cfg: &RunCfg) -> i32 {
   let mut report = Report::new(
     cfg,
-    "case = (one fixable JavaScript rule out of 14 templates: string fix, block-scalar fixes that end with one or two line breaks, a fix that is only a line break, prefix match trimming the trailing `;`, expandEnd / expandStart / both swallowing commas, transformed variable, multi-line replacement, object form without expansion, statement deletion; a text of 1-6 statements with nested / multi-line calls, arrays, multi-byte identifiers). Reference = (replacementOffsets, replacement) of `sg scan --json=stream`. Compared: the `fixed` snapshot of `sg test -U` (first match), Node::replace_all (outermost matches) and AstGrep::replace (first) through the library, the LSP quick fix of every diagnostic and the fix-all action. (scan -U is C18's subject.) Non-trivial = distinct case whose edit range differs from the matched node's range or whose replacement is multi-line.",
+    "case = (one fixable JavaScript rule out of 17 templates: nested matches with a common start, an expansion that displaces the previous edit (where the library, which rewrites outermost matches only, and `-U`, which filters all matches by range, legitimately differ in which matches they rewrite), string fix, block-scalar fixes that end with one or two line breaks, a fix that is only a line break, prefix match trimming the trailing `;`, expandEnd / expandStart / both swallowing commas, transformed variable, multi-line replacement, object form without expansion, statement deletion; a text of 1-6 statements with nested / multi-line calls, arrays, multi-byte identifiers). Reference = (replacementOffsets, replacement) of `sg scan --json=stream`. Compared: the `fixed` snapshot of `sg test -U` (first match), Node::replace_all (outermost matches) and AstGrep::replace (first) through the library, the LSP quick fix of every diagnostic and the fix-all action. (scan -U is C18's subject.) Non-trivial = distinct case whose edit range differs from the matched node's range or whose replacement is multi-line.",
   );
   report.assume("LSP ranges are converted with character columns");
   let known = Known::load(&cfg.prop);
